@@ -66,6 +66,11 @@ def head_token(e):
     """Sym(b"tok") -> ('sym', tok); ZExt(by) -> ('ZExt', [bind]) ..."""
     while e.get("k") in ("pref", "pderef"):
         e = e["pat"]
+    if e.get("k") == "por":
+        # `Sym(b"not") | Sym(b"bvnot")`: one row per spelling
+        hs = [head_token(a) for a in e["alts"]]
+        if hs and all(h[0] in ("sym", "syms") for h in hs):
+            return ("syms", [t_ for h in hs for t_ in ([h[1]] if h[0] == "sym" else h[1])])
     if e.get("k") == "pvariant":
         name = e["path"].split("::")[-1]
         if name == "Sym" and e["subs"] and e["subs"][0].get("k") == "plit" and e["subs"][0].get("lk") == "bytestr":
@@ -491,35 +496,90 @@ class core_shadow:
 
 
 def param_form(ctx, tok, param_rows, want, defs):
-    """((_ zero_extend by) e) etc.: the head row builds the parameter item from the tokens in order and the application row builds the node"""
-    heads = {"zero_extend": ("ZExt", ("_", "zero_extend", "Sym")), "sign_extend": ("SExt", ("_", "sign_extend", "Sym")), "extract": ("Extract", ("_", "extract", "Sym", "Sym")), "as const": ("AsConst", ("as", "const", "PType"))}
-    item, key = heads[tok]
+    """((_ zero_extend by) e) etc.: the head row builds the parameter item from the parameter tokens in order (each through parse_width) and the
+    application row builds the node from the item's payload in order and the operand.  Both rows are evaluated (lets, blocks), not compared as text."""
+    heads = {"zero_extend": ("ZExt", ("_", "zero_extend", "Sym"), "zext"), "sign_extend": ("SExt", ("_", "sign_extend", "Sym"), "sext"),
+             "extract": ("Extract", ("_", "extract", "Sym", "Sym"), "extract"), "as const": ("AsConst", ("as", "const", "PType"), "constarray")}
+    item, key, tname = heads[tok]
     hr = param_rows.get(key)
     ar = param_rows.get((item,))
     if hr is None or ar is None:
         return False, "reader rows for `%s` not found (%s)" % (tok, sorted(param_rows))
     hrow, harm = hr
     arow, aarm = ar
-    hb = show(harm["body"]).replace(" ", "")
-    ab = show(aarm["body"]).replace(" ", "")
-    if tok in ("zero_extend", "sign_extend"):
-        w = head_token(hrow["elems"][2])[1][0][0]
-        by = head_token(arow["elems"][0])[1][0][0]
-        e = binding_of_pat(arow["elems"][1])[0]
-        b = "zero_extend" if tok == "zero_extend" else "sign_extend"
-        ok = "%s(parser::parse_width(%s)?)" % (item, w) in hb and "ctx.%s(parser::expr(st,%s)?,*%s)" % (b, e, by) in ab
-        return ok, "%s / %s" % (hb[:80], ab[:80])
-    if tok == "extract":
-        hi = head_token(hrow["elems"][2])[1][0][0]
-        lo = head_token(hrow["elems"][3])[1][0][0]
-        ahi, alo = [x[0] for x in head_token(arow["elems"][0])[1]]
-        e = binding_of_pat(arow["elems"][1])[0]
-        ok = "Extract(parser::parse_width(%s)?,parser::parse_width(%s)?)" % (hi, lo) in hb and "ctx.slice(parser::expr(st,%s)?,*%s,*%s)" % (e, ahi, alo) in ab
-        return ok, "%s / %s" % (hb[:100], ab[:80])
-    if tok == "as const":
-        ok = "AsConst(*tpe)" in hb and "ctx.array_const(*data,tpe.index_width)" in ab and "Type::Array(tpe)" in show_pat(harm["pat"]).replace(" ", "")
-        return ok, "%s / %s" % (hb[:80], ab[:100])
-    return False, "?"
+    shown = "%s / %s" % (show(harm["body"]).replace(" ", "")[:90], show(aarm["body"]).replace(" ", "")[:90])
+
+    def value_of(body):
+        """the expression an arm yields, with its immutable lets substituted"""
+        b = strip_try(peel_block(body))
+        for _ in range(4):
+            if b.get("k") == "blockexpr" and "tail" in b["b"]:
+                b = strip_try(peel_block(b["b"]["tail"]))
+        return b
+    # the head row: Item(parse_width(tok_2)?, parse_width(tok_3)?) / AsConst(*tpe) with tpe bound by PType(Type::Array(tpe))
+    hv = value_of(harm["body"])
+    if not (hv.get("k") == "ctor" and callee(hv).endswith("ParserItem::" + item)):
+        return False, shown
+    tokb = []
+    for el in hrow["elems"][2:]:
+        bs = pat_bindings(el)
+        if len(bs) != 1:
+            return False, shown
+        tokb.append(bs[0][1])
+    if len(hv["args"]) != len(tokb):
+        return False, shown
+    for a, b_ in zip(hv["args"], tokb):
+        a = strip_try(resolve(strip_try(a)))
+        if tok == "as const":
+            pt = hrow["elems"][2]
+            inner = pt["subs"][0] if pt.get("k") == "pvariant" and pt["path"].endswith("ParserItem::PType") and pt.get("subs") else {}
+            while inner.get("k") in ("pref", "pderef"):
+                inner = inner["pat"]
+            if not (inner.get("k") == "pvariant" and inner["path"].endswith("Type::Array") and is_local(a, b_)):
+                return False, shown
+        elif not (a.get("k") == "call" and callee(a) == Pm + "parse_width" and is_local(a["args"][0], b_)):
+            return False, shown
+    # the application row: the node built from (operand, payload in order)
+    payload = [x for x in (head_token(arow["elems"][0])[1] or [])]
+    if len(arow["elems"]) != 2 or any(x is None for x in payload):
+        return False, shown
+    ob = pat_bindings(arow["elems"][1])
+    if len(ob) != 1:
+        return False, shown
+    names = {ob[0][1]: ("arg", 0)}
+    for k_, pb_ in enumerate(payload):
+        names[pb_[1]] = ("param", k_)
+    av = value_of(aarm["body"])
+    body = strip_try(peel_block(aarm["body"]))
+    if not (av.get("k") == "ctor" and callee(av).endswith("ParserItem::PExpr") and len(av["args"]) == 1):
+        return False, shown
+
+    def leaf(n, e_):
+        if n.get("k") == "call" and callee(n) == Pm + "expr":
+            a = peel(n["args"][1])
+            if a.get("k") == "local" and a["id"] in names:
+                return names[a["id"]]
+        if n.get("k") == "local" and n["id"] in names:
+            return names[n["id"]]
+        if n.get("k") == "field" and peel(n["e"]).get("k") == "local" and peel(n["e"])["id"] in names:
+            return ("fieldof", names[peel(n["e"])["id"]], n["name"])
+        return None
+    ex = semterm.Extractor(defs, leaf)
+    try:
+        if body.get("k") == "blockexpr" and body is not av:
+            inner = body
+            # evaluate the block with the payload of PExpr as its value
+            t_ = strip_try(peel_block(body["b"]["tail"]))
+            # (only the lets matter for the value: assertions and other statements are dropped)
+            inner = dict(body, b=dict(body["b"], stmts=[s_ for s_ in body["b"]["stmts"] if s_.get("k") == "let"], tail=t_["args"][0])) if t_ is av else None
+            term = ex.ev(inner, {}) if inner is not None else ex.ev(av["args"][0], {})
+        else:
+            term = ex.ev(av["args"][0], {})
+    except Opaque as e:
+        return False, "%s (%s: %s)" % (shown, e.why, show(e.node)[:50])
+    wants = {"zext": ("zext", ("arg", 0), ("param", 0)), "sext": ("sext", ("arg", 0), ("param", 0)), "extract": ("extract", ("arg", 0), ("param", 0), ("param", 1)),
+             "constarray": ("constarray", ("arg", 0), ("fieldof", ("param", 0), "index_width"))}
+    return norm(term) == norm(wants[tname]), "%s: read as %s" % (shown, fmt(term))
 
 
 def literals(ctx, c):
